@@ -193,7 +193,32 @@ fn typed_docs(ep: &EntryPoint, t: Tier, f: &mut dyn FnMut(String)) {
         return;
     }
     let fields: Vec<(usize, &FieldSpec)> = paras.iter().enumerate().flat_map(|(pi, p)| p.fields.iter().map(move |fs| (pi, fs))).collect();
-    let menus: Vec<usize> = fields.iter().map(|_| 2 + GARBAGE.len()).collect();
+    // near-valid values: pieces of the field's own valid values (first / last item, value cut short, value with a tail)
+    let near: Vec<Vec<String>> = fields
+        .iter()
+        .map(|(_, fs)| {
+            let mut out: Vec<String> = vec![];
+            for v in fs.valid.iter().take(2) {
+                let parts: Vec<&str> = v.split(|c: char| c == ',' || c == ' ' || c == ':' || c == '\n').filter(|x| !x.is_empty()).collect();
+                if let Some(first) = parts.first() {
+                    out.push(first.to_string());
+                }
+                if let Some(last) = parts.last() {
+                    out.push(last.to_string());
+                }
+                let mut cut = v.to_string();
+                cut.pop();
+                out.push(cut);
+                out.push(format!("{},", v));
+            }
+            out.sort();
+            out.dedup();
+            out.retain(|x| !fs.valid.contains(&x.as_str()) && !x.is_empty());
+            out.truncate(6);
+            out
+        })
+        .collect();
+    let menus: Vec<usize> = fields.iter().enumerate().map(|(i, _)| 2 + GARBAGE.len() + near[i].len()).collect();
     let k = t.pick(1, 2);
     let mut go = |v: &[usize]| {
         let mut text = String::new();
@@ -201,14 +226,15 @@ fn typed_docs(ep: &EntryPoint, t: Tier, f: &mut dyn FnMut(String)) {
             if pi > 0 {
                 text.push('\n');
             }
-            for ((fpi, fs), choice) in fields.iter().zip(v.iter()) {
+            for (fidx, ((fpi, fs), choice)) in fields.iter().zip(v.iter()).enumerate() {
                 if *fpi != pi {
                     continue;
                 }
                 let val: Option<&str> = match *choice {
                     0 => Some(fs.valid[0]),
                     1 => None,
-                    g => Some(GARBAGE[g - 2]),
+                    g if g - 2 < GARBAGE.len() => Some(GARBAGE[g - 2]),
+                    g => Some(near[fidx][g - 2 - GARBAGE.len()].as_str()),
                 };
                 if let Some(val) = val {
                     text.push_str(&render_para(&[(fs.name, val)]));
@@ -232,7 +258,7 @@ impl Prop for C02 {
         "model_checking"
     }
     fn rule(&self, _t: Tier) -> String {
-        "for each of the 60+ text-parsing entry points: (1) every string over its native character-class alphabet up to the length bound (full input trie; states = strings); (2) every sequence of its line templates / tokens up to the sequence bound; (3) pumped inputs w^k for every w up to length 2 (thorough 3) with k in {8, 64} (thorough 512), unbalanced nests and 20 kB (thorough 100 kB) single lines; (4) for the VCS-location codecs every sequence of 4-6 (thorough 7) tokens of the longest value grammar (url, opening bracket, subpath, closing bracket, -b, branch, blank); (5) for typed documents, the all-valid document built from the type's field table with <= 1 (thorough 2) fields absent or replaced by one of 7 garbage values; each call runs under catch_unwind with the parser loop budget armed (quadratic envelope), the allocation cap and the stall watchdog, and pumped inputs are also timed; non-trivial = distinct (entry point, non-empty string) of tiers 1-2".into()
+        "for each of the 60+ text-parsing entry points: (1) every string over its native character-class alphabet up to the length bound (full input trie; states = strings); (2) every sequence of its line templates / tokens up to the sequence bound; (3) pumped inputs w^k for every w up to length 2 (thorough 3) with k in {8, 64} (thorough 512), unbalanced nests and 20 kB (thorough 100 kB) single lines; (4) for the VCS-location codecs every sequence of 4-6 (thorough 7) tokens of the longest value grammar (url, opening bracket, subpath, closing bracket, -b, branch, blank); (5) for typed documents, the all-valid document built from the type's field table with <= 1 (thorough 2) fields absent or replaced by one of 7 garbage values or up to 6 near-valid values (pieces of the valid values of the field: first / last item, value cut short, value with a trailing comma); each call runs under catch_unwind with the parser loop budget armed (quadratic envelope), the allocation cap and the stall watchdog, and pumped inputs are also timed; non-trivial = distinct (entry point, non-empty string) of tiers 1-2".into()
     }
     fn bounds(&self, t: Tier) -> Value {
         let eps = entry_points();
